@@ -24,6 +24,11 @@ func loadFromYAMLFile(path string, data interface{}) error {
 	return decoder.Decode(data)
 }
 
+// accountTempFile is the name under which an account file is written before it is linked or renamed into place.
+// It is fixed (all writers hold the manager's lock), short (a login's file name may already be as long as the file
+// system allows) and not matched by the "*.yaml" glob of the loader.
+const accountTempFile = ".account.tmp"
+
 type YAMLAccountManager struct {
 	accounts   map[string]hotline.Account
 	accountDir string
@@ -76,23 +81,24 @@ func (am *YAMLAccountManager) Create(account hotline.Account) error {
 	defer am.mu.Unlock()
 
 	// Create account file, returning an error if one already exists.
-	file, err := os.OpenFile(
-		filepath.Join(am.accountDir, path.Join("/", account.Login+".yaml")),
-		os.O_CREATE|os.O_EXCL|os.O_WRONLY, 0644,
-	)
-	if err != nil {
-		return fmt.Errorf("create account file: %w", err)
-	}
-	defer file.Close()
-
 	b, err := yaml.Marshal(account)
 	if err != nil {
 		return fmt.Errorf("marshal account to YAML: %v", err)
 	}
 
-	_, err = file.Write(b)
-	if err != nil {
+	// Write the complete file under a temporary name (not matched by the *.yaml loader), then link it to its
+	// final name: the link is atomic and fails if the account file already exists, so a crash never leaves
+	// an empty or half-written account file behind.
+	accountPath := filepath.Join(am.accountDir, path.Join("/", account.Login+".yaml"))
+	tempPath := filepath.Join(am.accountDir, accountTempFile)
+
+	if err := os.WriteFile(tempPath, b, 0644); err != nil {
 		return fmt.Errorf("write account file: %w", err)
+	}
+	defer os.Remove(tempPath)
+
+	if err := os.Link(tempPath, accountPath); err != nil {
+		return fmt.Errorf("create account file: %w", err)
 	}
 
 	am.accounts[account.Login] = account
@@ -126,7 +132,16 @@ func (am *YAMLAccountManager) Update(account hotline.Account, newLogin string) e
 		return err
 	}
 
-	if err := os.WriteFile(filepath.Join(am.accountDir, path.Join("/", newLogin)+".yaml"), out, 0644); err != nil {
+	// Replace the file atomically (temporary name not matched by the *.yaml loader, then rename): writing it in
+	// place would truncate it first and a crash in between would leave an empty account file.
+	accountPath := filepath.Join(am.accountDir, path.Join("/", newLogin)+".yaml")
+	tempPath := filepath.Join(am.accountDir, accountTempFile)
+
+	if err := os.WriteFile(tempPath, out, 0644); err != nil {
+		return fmt.Errorf("error writing account file: %w", err)
+	}
+
+	if err := os.Rename(tempPath, accountPath); err != nil {
 		return fmt.Errorf("error writing account file: %w", err)
 	}
 
